@@ -64,6 +64,61 @@ def _is_get(callee):
     return re.sub(r"::<[^<>]*>$", "", callee).endswith("<impl [T]>::get")
 
 
+def dispatch_by_byte(body, reader_tag):
+    """value (0..255) of the parser's argument -> the `*Data` reader type(s) reached: every loop-free path's conditions
+    on the argument (equalities, range comparisons) are evaluated for each byte value; conditions on read results are
+    ignored (they decide success, not which table kind is read)."""
+    V = ("fld", ("p", 3), 0)
+
+    def ev(e, v):
+        if e == V:
+            return v
+        if is_const(e):
+            return e[1]
+        if isinstance(e, tuple) and e[0] == "cast":
+            return ev(e[2], v)
+        if isinstance(e, tuple) and e[0] == "bin":
+            a, b = ev(e[2], v), ev(e[3], v)
+            if a is None or b is None:
+                return None
+            return {"Le": a <= b, "Lt": a < b, "Ge": a >= b, "Gt": a > b, "Eq": a == b, "Ne": a != b, "BitAnd": a & b, "BitOr": a | b, "Shr": a >> b if b < 64 else 0, "Sub": a - b, "Add": a + b}.get(e[1])
+        return None
+
+    paths = []
+    for p in Explorer(body).explore():
+        readers = [callee.split("mtrl::")[1].split(" ")[0] for (_b, callee, _a, _r) in p.events if "BinRead>::read_options" in callee and reader_tag in callee and "mtrl::" in callee]
+        if not readers:
+            continue
+        conds = []
+        for d, c in p.conds:
+            if any(t == V for t in walk(d)) and not any(isinstance(t, tuple) and t[0] in ("discr", "call") for t in walk(d)):
+                conds.append((d, c))
+        paths.append((readers[0], conds))
+    out = {}
+    for v in range(256):
+        hit = set()
+        for rd, conds in paths:
+            ok = True
+            for d, c in conds:
+                x = ev(d, v)
+                if x is None:
+                    ok = False
+                    break
+                x = int(x)
+                if c[0] == "eq":
+                    ok = ok and x == c[1]
+                elif c[0] == "ne":
+                    ok = ok and x not in (c[1] if isinstance(c[1], tuple) else (c[1],))
+                elif c[0] == "not":
+                    ok = ok and x not in (c[1] if isinstance(c[1], tuple) else (c[1],))
+                else:
+                    ok = False
+            if ok:
+                hit.add(rd)
+        out[v] = hit
+    return out
+
+
 def run(ctx):
     prog = ctx.prog
     wm = model(ctx)
@@ -201,6 +256,37 @@ def run(ctx):
                     if ("v", 3) in list(walk(nd)) and not any(isinstance(t, tuple) and t[0] in ("discr", "call") for t in walk(nd)):
                         codes.setdefault(readers[0].split("mtrl::")[1].split(" ")[0], set()).add(c[1])
         ctx.ob("MASKS", "color-table-dispatch", codes.get("LegacyColorTableData") == {0, 0x42} and codes.get("DawntrailColorTableData") == {0x53}, f"colour-table dispatch codes {dict((k, sorted(v)) for k, v in codes.items())}; reference legacy 0|0x42 (4x16), Dawntrail 0x53 (8x32)", pb.file, pb.line)
+
+    # ---- ORDER: the variable-length shader-package records (per-shader resource lists, package-level lists, nodes)
+    from ..wrules import w_order
+
+    w_order(ctx, "shpk::Shader", ["data_offset", "data_size", "scalar_parameter_count", "resource_parameter_count", "uav_parameter_count", "texture_count", "scalar_parameters", "resource_parameters", "uav_parameters", "texture_parameters", "additional_data", "bytecode"],
+            {"scalar_parameters": "scalar_parameter_count", "resource_parameters": "resource_parameter_count", "uav_parameters": "uav_parameter_count", "texture_parameters": "texture_count"})
+    w_order(ctx, "shpk::ShaderPackage", ["version", "format", "file_length", "shader_data_offset", "strings_offset", "vertex_shader_count", "pixel_shader_count", "material_parameters_size", "material_parameter_count", "has_mat_param_defaults", "scalar_parameter_count", "unknown1", "sampler_count", "texture_count", "uav_count", "unknown2", "system_key_count", "scene_key_count", "material_key_count", "node_count", "node_alias_count", "vertex_shaders", "pixel_shaders", "material_parameters", "mat_param_defaults", "scalar_parameters", "sampler_parameters", "texture_parameters", "uav_parameters", "system_keys", "scene_keys", "material_keys", "sub_view_key1_default", "sub_view_key2_default", "nodes", "node_selectors", "node_aliases"],
+            {"vertex_shaders": "vertex_shader_count", "pixel_shaders": "pixel_shader_count", "material_parameters": "material_parameter_count", "scalar_parameters": "scalar_parameter_count", "sampler_parameters": "sampler_count", "texture_parameters": "texture_count", "uav_parameters": "uav_count", "system_keys": "system_key_count", "scene_keys": "scene_key_count", "material_keys": "material_key_count", "nodes": "node_count", "node_aliases": "node_alias_count"})
+    w_order(ctx, "shpk::Node", ["selector", "pass_count", "pass_indices", "system_keys", "scene_keys", "material_keys", "subview_keys", "passes"], {"passes": "pass_count"})
+    w_order(ctx, "shpk::ResourceParameter", ["id", "local_string_offset", "string_length", "unknown", "slot", "size", "name"], {"name": "string_length"})
+
+    # ---- the dye-table dispatch, for every value of the dimension byte
+    pdb = prog.body("mtrl::parse_color_dye_table")
+    if not pdb:
+        ctx.fail_closed("MASKS", "mtrl::parse_color_dye_table not found")
+    else:
+        got = dispatch_by_byte(pdb, "ColorDyeTableData")
+
+        def want_dye(v):
+            return "LegacyColorDyeTableData" if v == 0 else "DawntrailColorDyeTableData" if 0x50 <= v <= 0x5F else "OpaqueColorDyeTableData"
+
+        wrong = [v for v in range(256) if got.get(v) != {want_dye(v)}]
+        ctx.ob("MASKS", "dye-table-dispatch", not wrong, f"dye-table kind per dimension byte: legacy for 0, Dawntrail for 0x50..=0x5F, none otherwise; differs at {[hex(v) for v in wrong[:8]]}" if wrong else "dye-table kind per dimension byte: legacy for 0, Dawntrail for 0x50..=0x5F, none otherwise (all 256 values)", pdb.file, pdb.line, sample=True)
+    if pb:
+        gotc = dispatch_by_byte(pb, "ColorTableData")
+
+        def want_col(v):
+            return "LegacyColorTableData" if v in (0, 0x42) else "DawntrailColorTableData" if v == 0x53 else "OpaqueColorTableData"
+
+        wrongc = [v for v in range(256) if gotc.get(v) != {want_col(v)}]
+        ctx.ob("MASKS", "color-table-dispatch|all-values", not wrongc, f"colour-table kind per dimension byte differs from the reference at {[hex(v) for v in wrongc[:8]]}" if wrongc else "colour-table kind per dimension byte: legacy for 0 / 0x42, Dawntrail for 0x53, opaque otherwise (all 256 values)", pb.file, pb.line)
 
     # ---- CONSTS
     mb = prog.body("mtrl::Material::from_existing")
